@@ -122,7 +122,8 @@ class _TailWorld(World):
       if short in ('real', 'abs', 'absolute') and len(args) == 1 and \
               tg(args[0]) in ('vals_sel', 'vecs_sel') and short == 'real':
         return args[0]
-      if short == 'qr' and args and tg(args[0]) in ('vecs_sel', 'vecs'):
+      if short == 'qr' and args and tg(args[0]) in (
+              'vecs_sel', 'vecs', 'sel_of', 'q', 'weighted', 'orth'):
         return (S('q', args[0]), S('r'))
       if short == 'orth' and args and tg(args[0]) in ('vecs_sel', 'vecs'):
         # an orthonormal basis of the span from the SVD: not the
